@@ -12,7 +12,9 @@ import zorgapi as Z
 PROP = "C14"
 MODULES = ["ZorgVerif.Props.C14"]
 
-NAMES = ["foo", "bar", "foo_bar", "a", "ab", "proj/foo", "proj/sub/x", "2024", "python3.12", "sicp(2e)", "why_zorg?", "c++", "a.b", "x-y", "w$", "n^2", "a|b", "q{1}"]
+NAMES = ["foo", "bar", "foo_bar", "a", "ab", "proj/foo", "proj/sub/x", "2024", "python3.12", "sicp(2e)", "why_zorg?", "c++", "a.b", "x-y", "w$", "n^2", "a|b", "q{1}",
+         # hidden pages / pages in hidden directories (always given with their extension: the name holds a dot)
+         ".scratch", "scratch", ".archive/inbox", "archive/inbox"]
 ANCH = ["top", "x", "a-b", "1", "sec_2"]
 
 
@@ -23,6 +25,7 @@ def near_misses(a: str):
         "x" + a, a + "x", a + "/x", "x/" + a, a + ".zo", a + "_", a[:-1] if len(a) > 1 else a + a, a.upper() if a.upper() != a else a + "Z",
         base if base != a else a + "0", re.sub(r"[^A-Za-z0-9/_]", "x", a) if re.search(r"[^A-Za-z0-9/_]", a) else a + "2",
         re.sub(r"[^A-Za-z0-9/_]", "", a) if re.search(r"[^A-Za-z0-9/_]", a) else a + "3",
+        a.lstrip("./") if a.lstrip("./") not in (a, "") else "." + a,
     ]
 
 
@@ -109,7 +112,7 @@ def gen_case(rng):
         files[f"{d}f{i}{ext}"] = gen_text(rng, a, b, ext)
     if rng.random() < 0.3:
         files["plain.txt"] = f"not a zorg file [[{a}]]\n"
-    return {"src": a + (".zo" if src_ext else ""), "dst": b + (".zo" if rng.random() < 0.3 else ""), "files": files, "mkdst": rng.random() < 0.93,
+    return {"src": a + (".zo" if src_ext or a.startswith(".") else ""), "dst": b + (".zo" if rng.random() < 0.3 or b.startswith(".") else ""), "files": files, "mkdst": rng.random() < 0.93,
             "symlink": (not reldir) and rng.random() < 0.15, "reldir": reldir}
 
 
@@ -226,7 +229,7 @@ def body(ctx: C.Ctx, proof: C.ProofStatus) -> C.Result:
 
 
 RULE = (
-    "random directories (.zo/.zot/.zoq in sub-directories) x (A,B) from a pool incl. regex metacharacters, dots, sub-directories; "
+    "random directories (.zo/.zot/.zoq in sub-directories) x (A,B) from a pool incl. regex metacharacters, dots, sub-directories, hidden pages / directories and their dot-less look-alikes; "
     "link texts [[A]], [[A#anchor]], 11 near-miss targets, partial/bracket look-alikes; CLI `file rename` in-process; bytes of all "
     "files vs one-pass spec, link-level comparison, Lean model renameText; non-trivial = directory containing at least one link to A"
 )
